@@ -20,7 +20,9 @@ import (
 
 var c09SQLSyms = []string{"'", "\"", "`", "\\", "$", "a", "1", "@", "/", "*", "-", "#", "[", "]", "(", ")", ",", ";", ".", "e", "q", "x", " ", "\n",
 	// keyword / operator atoms: a scanner that gives a byte run back after a short keyword prefix re-reads the run
-	"or", "mod", "select", "union", "in", "=", "+", "::", "$a$", "--", "/*", "*/", "0x", "\x00", "\xa0"}
+	"or", "mod", "select", "union", "in", "=", "+", "::", "$a$", "--", "/*", "*/", "0x", "\x00", "\xa0",
+	// complete single tokens: a per-token cost that depends on the REST of the input only shows when tokens keep coming
+	"[a]", "'a'", "`a`", "@a", "/*a*/", "1.0", "a.b", "q'(a)'"}
 var c09HTMLSyms = []string{"<", ">", "/", "=", "'", "\"", "`", "!", "-", "?", "%", "]", "&", "#", ";", "x", "1", "a", " ", "\x00", "\t", "[",
 	"<!", "<!d", "<a", "<a ", "&#", "-->", "]]>", "%>", "href", "on", "\n"}
 var c09SQLOpeners = []string{"", "'", "\"", "/*", "$a$", "q'(", "@`", "1 ", "a", "1 union select "}
@@ -98,14 +100,14 @@ func init() {
 		ID:        "C09",
 		QuickS:    90,
 		ThoroughS: 900,
-		Rule: "every repetition family opener + unit^k for every unit over the 39 SQL / 33 HTML state-changing symbols and keyword/markup atoms of length <=2 (quick) / <=3 (thorough) x 10 (SQL) / 12 (HTML) openers, at 4 KB, 16 KB and 64 KB, through the auto-instrumented build: " +
+		Rule: "every repetition family opener + unit^k for every unit over the 47 SQL / 33 HTML state-changing symbols and keyword/markup atoms of length <=2 (quick) / <=3 (thorough) x 10 (SQL) / 12 (HTML) openers, at 4 KB, 16 KB and 64 KB, through the auto-instrumented build: " +
 			"deterministic work(64K) <= 6*work(16K) <= 36*work(4K) (linear = 4, quadratic = 16) and work <= 2000*|s| + 1e5 (enforced as a budget, so a blow-up stops early); wall-clock is recorded, never judged; every family is one state with three transitions",
 		Assumptions: []string{
 			"cost model: loop-body entries + function entries + bytes passed to strings/bytes functions + concatenation/conversion sizes; cost hidden inside == on long strings or inside strings.Builder methods is not charged",
 			"the instrumented sources are generated from /repo's current working tree at check time (vinstr), nothing is committed to /repo",
 		},
 		Phases: []fw.Phase{
-			{Name: "sql-families", Space: "10 openers x units over 39 SQL symbols/atoms ^<=2 (quick) / <=3 (thorough) x {4K,16K,64K}", Share: 1,
+			{Name: "sql-families", Space: "10 openers x units over 47 SQL symbols/atoms ^<=2 (quick) / <=3 (thorough) x {4K,16K,64K}", Share: 1,
 				Run: func(w *fw.W) {
 					units := alpha.Units(c09SQLSyms, w.Pick(2, 3))
 					w.Each(len(units)*len(c09SQLOpeners), func(i int) {
